@@ -43,7 +43,7 @@ Local Notation ubi := (f0_ubi fb).
 
 (** one round: equal rows for every factor force equal components *)
 Lemma round_inj tc cp1 cp2 : tc <= C -> comp_ok fb tc cp1 -> comp_ok fb tc cp2 ->
-  (forall g, g < n -> round_row fb tc cp1 g = round_row fb tc cp2 g) -> cp1 = cp2.
+  (forall g, In g (fl_act fb) -> round_row fb tc cp1 g = round_row fb tc cp2 g) -> cp1 = cp2.
 Proof.
   intros Hle Hok1 Hok2 Hrows.
   destruct cp1 as [[a0 a1] a2]. destruct cp2 as [[b0 b1] b2].
@@ -61,7 +61,7 @@ Proof.
       - rewrite !(prod_elem_length fb HF Hq) by lia. reflexivity.
       - intros i Hi. rewrite (prod_elem_length fb HF Hq) in Hi by lia.
         assert (Hg : nth_error c i = Some (nth i c 0)) by (apply nth_error_nth_ok; exact Hi).
-        assert (Hgn : nth i c 0 < n) by (apply (f0_range fb (f0_unpack fb HF)), nth_In; exact Hi).
+        assert (Hgn : In (nth i c 0) (fl_act fb)) by (apply (f0_cact_main fb HF), nth_In; exact Hi).
         pose proof (Hrows _ Hgn) as Hrow.
         rewrite (round_row_crossed fb HF Hq tc (a0, a1, a2) i _ Hle Hok1 Hg) in Hrow.
         rewrite (round_row_crossed fb HF Hq tc (b0, b1, b2) i _ Hle Hok2 Hg) in Hrow. cbn [fst] in Hrow.
@@ -74,7 +74,7 @@ Proof.
   { pose proof (Forall2_length' _ _ _ Ha2) as Hl1. pose proof (Forall2_length' _ _ _ Hb2) as Hl2.
     apply (nth_ext_len _ _ 0%Z); [lia|]. intros j Hj. rewrite <- Hl1 in Hj.
     assert (Hg : nth_error ubi j = Some (nth j ubi 0)) by (apply nth_error_nth_ok; exact Hj).
-    assert (Hgn : nth j ubi 0 < n) by (apply (K_In fb HF Hq), in_app_iff; right; apply nth_In; exact Hj).
+    assert (Hgn : In (nth j ubi 0) (fl_act fb)) by (apply (f0_ubi_act fb HF), nth_In; exact Hj).
     pose proof (Hrows _ Hgn) as Hrow.
     rewrite (round_row_ind fb HF Hq tc (a0, a1, a2) j _ Hle Hok1 Hg) in Hrow.
     rewrite (round_row_ind fb HF Hq tc (b0, b1, b2) j _ Hle Hok2 Hg) in Hrow. cbn [snd] in Hrow.
@@ -100,13 +100,13 @@ Lemma rounds_inj (rcs1 rcs2 : list (nat * comp)) :
   map fst rcs1 = map fst rcs2 ->
   (forall rc, In rc rcs1 -> fst rc <= C /\ comp_ok fb (fst rc) (snd rc)) ->
   (forall rc, In rc rcs2 -> fst rc <= C /\ comp_ok fb (fst rc) (snd rc)) ->
-  (forall g, g < n -> rounds_row rcs1 g = rounds_row rcs2 g) -> rcs1 = rcs2.
+  (forall g, In g (fl_act fb) -> rounds_row rcs1 g = rounds_row rcs2 g) -> rcs1 = rcs2.
 Proof.
   revert rcs2. induction rcs1 as [|[tc cp1] t1 IH]; intros [|[tc2 cp2] t2] Hfst H1 H2 Hrows; try discriminate; [reflexivity|].
   cbn [map fst] in Hfst. inversion Hfst as [[Htc Hrest]]. subst tc2.
   destruct (H1 (tc, cp1) (or_introl eq_refl)) as [Hle Hok1]. destruct (H2 (tc, cp2) (or_introl eq_refl)) as [_ Hok2].
   cbn [fst snd] in *.
-  assert (Hsplit : forall g, g < n -> round_row fb tc cp1 g = round_row fb tc cp2 g /\ rounds_row t1 g = rounds_row t2 g).
+  assert (Hsplit : forall g, In g (fl_act fb) -> round_row fb tc cp1 g = round_row fb tc cp2 g /\ rounds_row t1 g = rounds_row t2 g).
   { intros g Hg. specialize (Hrows g Hg). unfold rounds_row in Hrows. cbn [flat_map fst snd] in Hrows.
     apply app_inj_length; [exact Hrows|].
     rewrite !(round_row_length fb HF Hq) by (try assumption; apply (K_In fb HF Hq); exact Hg). reflexivity. }
@@ -142,7 +142,7 @@ Qed.
 
 (** distinct keys give distinct sequences *)
 Theorem f0_decode_inj k1 k2 : key_ok fb k1 -> key_ok fb k2 ->
-  (forall g, g < n -> decoded_row fb k1 g = decoded_row fb k2 g) -> k1 = k2.
+  (forall g, In g (fl_act fb) -> decoded_row fb k1 g = decoded_row fb k2 g) -> k1 = k2.
 Proof.
   intros Hk1 Hk2 Hrows. apply all_rounds_inj; [exact Hk1 | exact Hk2|].
   apply rounds_inj.
